@@ -420,6 +420,17 @@ func (r *c15Run) vote() {
 		r.res.Count("turnout_equal_to_quorum_attempts", 1)
 		return
 	}
+	if p.quorum.IsZero() {
+		// a type without a quorum: the small delegator's vote stays the only one (a turnout far below the
+		// chain-wide quorum, which must not matter)
+		if len(p.votes) == 0 && len(p.split) == 0 {
+			if res := fix.GovVote(r.c, r.deleg, p.id, govv1.OptionYes); res.OK() {
+				p.votes[r.deleg.Bech32()] = govv1.OptionYes
+			}
+			r.res.Count("lone_small_votes_for_a_type_without_quorum", 1)
+		}
+		return
+	}
 	if ev, ok := r.exactVoters[p.url]; ok && len(p.votes) == 0 && len(p.split) == 0 {
 		// exactly the validators whose combined share equals the quorum of this type vote yes
 		for _, v := range ev {
